@@ -74,6 +74,26 @@ def _shapes():
         t.extend(map(lambda y: y, [x, tags.i()]))
         return t.get_html_string()
 
+    def ap_after_html(x):
+        t = tags.div(H.HTML("<hr/>"))
+        t.append(x)
+        return t.get_html_string()
+
+    def ext_after_html(x):
+        t = TagList(tags.b(), H.HTML("<i>k</i>"))
+        t.extend([x, "z"])
+        return t.get_html_string()
+
+    def iadd_after_html(x):
+        t = TagList(H.HTML("&amp;"))
+        t += [x]
+        return t.get_html_string()
+
+    def ins_after_html(x):
+        t = tags.p(H.HTML("<hr/>"), H.HTML("<br/>"))
+        t.insert(1, x)
+        return t.get_html_string()
+
     return {
         "only_block": lambda x: tags.div(x).get_html_string(),
         "only_inline": lambda x: tags.span(x).get_html_string(),
@@ -91,6 +111,8 @@ def _shapes():
         "in_taglist_arg": lambda x: tags.div(TagList("q", TagList(x))).get_html_string(),
         "deep": lambda x: tags.div(tags.ul(tags.li(tags.a(tags.b(x), "t")))).get_html_string(),
         "append": ap, "append_many": ap2, "extend": ext, "insert0": ins, "insert_mid": ins_mid, "iadd": iadd,
+        "append_after_html": ap_after_html, "extend_after_html": ext_after_html, "iadd_after_html": iadd_after_html,
+        "insert_between_html": ins_after_html,
         "extend_iter": ext_iter, "extend_gen": ext_gen, "iadd_gen": iadd_gen, "list_extend_map": lext_map,
         "radd": lambda x: ([x] + TagList(tags.span())).get_html_string(),
         "add": lambda x: (TagList(tags.div()) + [x]).get_html_string(),
@@ -428,8 +450,14 @@ class C04(Prop):
             for tagname in ("script", "style"):
                 for form in ("only", "first", "second", "third", "indented", "with_meta"):
                     gens.append({"kind": "rawtext", "tag": tagname, "form": form, "s": cps(p)})
-            for way in ("kw", "dict", "setitem", "update", "second_attr"):
+            # (remove_class recomputes the class value from its tokens and stores a plain string even when nothing was
+            #  removed: the trusted marking of the old value is lost and the text is escaped again - over-escaping, the
+            #  safe direction; no listed property covers it, so it is not generated here.  DESIGN.md 9.3)
+            for way in ("kw", "dict", "setitem", "update", "second_attr", "class_then_add", "class_then_add_pre", "style_then_add",
+                        "cons"):
                 gens.append({"kind": "html_attr", "s": cps(p), "way": way})
+            for way in ("doc", "textdoc", "as_html_tags"):
+                gens.append({"kind": "dep_head", "s": cps(p), "way": way})
         for p in gamma.LONG_HOSTILE:
             for nm in ("only_block", "only_inline", "second_after_inline", "after_block", "taglist_only"):
                 gens.append({"kind": "html_child", "s": cps(p), "shape": nm, "prime": True})
@@ -523,11 +551,48 @@ class C04(Prop):
                 elif way == "update":
                     t = H.tags.div(a="old")
                     t.attrs.update({"a": x})
+                elif way == "class_then_add":
+                    # a trusted class / style value stays verbatim when the helpers add a plain value next to it
+                    t = H.tags.div(class_=x)
+                    t.add_class("plain")
+                elif way == "class_then_add_pre":
+                    t = H.tags.div(class_=x)
+                    t.add_class("plain", prepend=True)
+                elif way == "class_then_remove":
+                    t = H.tags.div(class_=x)
+                    t.remove_class("not-there-at-all")
+                elif way == "style_then_add":
+                    t = H.tags.div(style=x)
+                    t.add_style("k:v;")
+                elif way == "cons":
+                    attrs, _ = H.consolidate_attrs({"a": x}, "child")
+                    t = H.tags.div(attrs)
                 else:
                     t = H.tags.div(b="1", a=x, c="2")
                 return t.get_html_string()
+            if way in ("class_then_add", "class_then_add_pre", "class_then_remove") and (not s.strip() or len(s.split()) != 1 or s != s.strip()):
+                # the class helpers work on whitespace-separated tokens: C16's business, not "verbatim"
+                return None
             seg = segment(r, H.HTML(MARK), H.HTML(s))
             return seg_or_flag("C04", "attr", [("raw", s)], seg, g)
+        if k == "dep_head":
+            # trusted markup carried by a dependency's head, on the rendering paths that hoist it
+            way = g["way"]
+            PHX = "<meta name=\"deps-here\">"
+
+            def r(x):
+                d = H.HTMLDependency("dh", "1.0", head=x)
+                if way == "doc":
+                    return H.HTMLDocument(H.tags.div("c", d)).render()["html"]
+                if way == "textdoc":
+                    return H.HTMLTextDocument("<html><head>" + PHX + "</head><body>b</body></html>", deps=[d],
+                                              deps_replace_pattern=PHX).render()["html"]
+                return d.as_html_tags().get_html_string()
+            try:
+                seg = segment(r, H.HTML(MARK), H.HTML(s))
+            except Exception as ex:  # noqa: rendering trusted markup must not fail because of what it contains
+                return flag("C04", "TrustedMarkupRendersOnEveryPath", True, False, g)
+            return seg_or_flag("C04", "text", [("raw", s)], seg, g)
         if k == "expr":
             payloads = [uncps(p) for p in g["payloads"]]
             e = g["e"]
